@@ -46,7 +46,7 @@ func init() {
 	register("C01", "other", func(c *Ctx) {
 		skeletonExplain(c, "C01 (generated source compiles in its destination package) — necessary conditions only: (1) every skeleton of the family type-checks in both destination modes, incl. unused/missing imports under every flag combination; (2) import discovery handles every type constructor the type printer can print; (3) every type text is printed with the file's qualifier; (4) template and data model agree (every field chain resolves in some environment, all template nodes are reached); (5) declared-name patterns that can collide.")
 		c.Run.Floor("K-TYPE", 1)
-		c.RunSkeletons(SkelOpts{Rules: []string{"K-TYPE", "K-NAMES", "K-DECLS/extra", "K-MSET/unexpected", "K-MSET/field", "K-IMPORTS", "G-DATA/imports", "G-DATA/pkgname", "G-DATA/src-qualifier"}, Notes: []string{"G-RENDER", "H-PANIC"}, TypeErrIsOwn: true})
+		c.RunSkeletons(SkelOpts{Rules: []string{"K-TYPE", "K-NAMES", "K-DECLS/extra", "K-MSET/unexpected", "K-MSET/field", "K-IMPORTS", "G-DATA/imports", "G-DATA/pkgname", "G-DATA/src-qualifier", "G-SCOPE"}, Notes: []string{"G-RENDER", "H-PANIC"}, TypeErrIsOwn: true})
 		genCompile(c)
 	})
 	_ = strings.HasPrefix
